@@ -122,7 +122,7 @@ def prios_from_trace(impl_line):
         elif acq.startswith("G") and w in cur:
             try:
                 cur[w].append(int(acq[1:-1].split(".")[1]))
-            except ValueError:
+            except (ValueError, IndexError):
                 pass
         else:
             cur.pop(w, None)
@@ -195,10 +195,10 @@ def coq_query(chk, body):
     os.makedirs(d, exist_ok=True)
     src = os.path.join(d, "Q.v")
     open(src, "w").write(
-        "From Coq Require Import String List NArith.\nFrom Burrow Require Import Lockset.\n"
+        "From Coq Require Import String List NArith Bool.\nFrom Burrow Require Import Lockset.\nOpen Scope bool_scope.\n"
         "From BurrowGen Require Import LocksetTable RouterTable.\nImport ListNotations.\n"
         "Definition keyed := handler_keyed routes handlers.\n" + body + "\n")
-    with C.Lock("coq"):
+    with C.Lock("coq", shared=True):
         p = C.sh(["timeout", "300", "coqc", "-Q", os.path.join(C.COQ, "theories"), "Burrow", "-Q", os.path.join(C.COQ, "gen"), "BurrowGen", src],
                  cwd=d, check=False)
     return p.stdout or ""
@@ -224,14 +224,60 @@ Eval vm_compute in ("ROUTES", routes, "PROBLEMS", problems,
     rows = []
     for mm in re.finditer(r'\("(\w+)", "(\w+)", (\d+)%N, \(?(C\w+(?: "[^"]*")?)\)?, ([RW]),', flat):
         rows.append("core/internal/storage/inmemory.go:%s %s (in %s) %s %s" % (mm.group(3), mm.group(2), mm.group(1), mm.group(4), mm.group(5)))
+    for mm in re.finditer(r'\("(\w+)", "(\w+)", (\d+)%N, (L\w+), (M\w), (\[[^\]]*\])\)', flat):
+        rows.append("core/internal/storage/inmemory.go:%s %s (in %s) acquires %s %s while holding %s"
+                    % (mm.group(3), mm.group(2), mm.group(1), mm.group(4), mm.group(5), mm.group(6)))
+    m = re.search(r'"UNHASHED_WRITERS", (.*?), "UNHANDLED", (.*?)\)\s*:', flat)
+    route_line = dict((mm.group(1), mm.group(3)) for mm in re.finditer(r'\("(Storage\w+)", (R\w+), (\d+)%N\)', flat))
+    route_kind = dict((mm.group(1), mm.group(2)) for mm in re.finditer(r'\("(Storage\w+)", (R\w+), (\d+)%N\)', flat))
+    if m:
+        for mm in re.finditer(r'\("(Storage\w+)", "(\w+)"\)', m.group(1)):
+            rows.append("core/internal/storage/inmemory.go:%s mainLoop dispatches %s as %s but its handler %s writes the state of its own group"
+                        % (route_line.get(mm.group(1), "?"), mm.group(1), route_kind.get(mm.group(1), "not at all"), mm.group(2)))
+        for mm in re.finditer(r'"(Storage\w+)"', m.group(2)):
+            rows.append("core/internal/storage/inmemory.go mainLoop/requestTypeMap do not handle %s" % mm.group(1))
     res["rows"] = sorted(set(rows))
     return res
+
+
+CONSTANTS = ["StorageSetBrokerOffset", "StorageSetConsumerOffset", "StorageSetConsumerOwner", "StorageSetDeleteTopic",
+             "StorageSetDeleteGroup", "StorageFetchClusters", "StorageFetchConsumers", "StorageFetchTopics", "StorageFetchConsumer",
+             "StorageFetchTopic", "StorageClearConsumerOwners", "StorageFetchConsumersForTopic"]
+KEYED_CONSTANTS = {"StorageSetConsumerOffset", "StorageSetConsumerOwner", "StorageSetDeleteGroup", "StorageFetchConsumer",
+                   "StorageClearConsumerOwners"}
+
+
+def router_probe(chk, binp):
+    """Behavioural side of the router table: 48 requests of each type for one (cluster, group) through mainLoop of a
+    4-worker module; group-keyed types (the ones StorageConc.keyed_group names) must always reach the same worker."""
+    opath = os.path.join(chk.work, "router.out")
+    if os.path.exists(opath):
+        os.remove(opath)
+    rc, out = C.run_probe(binp, "TestVerifProbeStorageconcRouter", os.devnull, opath, timeout=300)
+    if rc != 0 or not os.path.exists(opath):
+        return None, "router probe failed rc=%s: %s" % (rc, out[-800:])
+    line = open(opath).read().strip()
+    seen = {}
+    for tok in line.split()[1:]:
+        k, v = tok.split("=")
+        seen[int(k)] = v
+    bad = []
+    for i, name in enumerate(CONSTANTS):
+        v = seen.get(i, "")
+        if name in KEYED_CONSTANTS and (len(v) != 1 or not v.isdigit()):
+            bad.append("%s: 48 requests for cluster k1 / group g7 reached workers {%s} - requests of one group are no longer "
+                       "handled by one worker in submission order" % (name, v))
+        if "closed" in v or v == "":
+            bad.append("%s: not dispatched to any worker (%s)" % (name, v or "lost"))
+    return line, bad
 
 
 def table_violation(chk, failed_names, diag, extra=None):
     """A failed table obligation: the replay is the offending rows (file:line); a -race stress run is attempted only to
     add a concrete runtime report to the replay."""
-    rep = {"kind": "table", "broken": failed_names, "probe": "translator/lockset (coq/gen/LocksetTable.v, RouterTable.v)",
+    flagged = [n for n, k in (("lockset_table_race_free", "race_free"), ("lock_order_table_ok", "lock_order_ok"),
+                              ("router_table_ok", "router_check")) if diag.get(k) is False]
+    rep = {"kind": "table", "broken": flagged or failed_names, "all_failed_obligations": failed_names, "probe": "translator/lockset (coq/gen/LocksetTable.v, RouterTable.v)",
            "race_free": diag.get("race_free"), "lock_order_ok": diag.get("lock_order_ok"), "router_check": diag.get("router_check"),
            "rows": diag.get("rows"), "coq_output": diag.get("raw"),
            "oracle_verdict": "the lock discipline / lock order / router table regenerated from the working tree fails its checker: "
@@ -326,7 +372,26 @@ def run(chk, failed):
                                             "detail": "lock operations the rewriter does not recognise (%s): the scheduler cannot control them" % info},
                       found_input=False)
 
+    rline, rbad = router_probe(chk, binp)
+    chk.notes.append("router probe: %s" % (rline,))
+    chk.evaluations += 1
+    if rline is None:
+        chk.violation("router_probe", {"kind": "input", "broken": "tie:router", "detail": rbad}, found_input=False)
+    elif rbad:
+        chk.violation("router", {"kind": "input", "probe": "storage/TestVerifProbeStorageconcRouter", "case": "48 requests per StorageRequestConstant, "
+                                 "cluster k1, group g7, 4 workers, through module.requestChannel", "impl_output": rline,
+                                 "broken": "router_group_keyed_complete / conc_group_one_worker (wf_queues)", "oracle_verdict": rbad,
+                                 "cmd": "bin/check C08 --tier quick"})
+
     cases, tags = gen_cases(chk)
+    if diag and diag.get("lock_order_ok") is False:
+        # the lock order of the table is cyclic: look for the deadlock itself, every interleaving of every pair
+        import itertools
+        for pr in itertools.combinations_with_replacement(concgen.KINDS9, 2):
+            for variant in range(2):
+                for ln, tg in concgen.gen_tuple_exhaustive(chk.rng, list(pr), limit=None, variant=variant):
+                    cases.append(ln)
+                    tags.append(["deadlock-search", tg[1]])
     impl, model, mism = differential(chk, binp, cases, "sched")
     if model is None:
         kind, rc, out, case = mism[0]
